@@ -145,6 +145,8 @@ class Module:
         if _is_reserved(self, name or val.name):  # Protected names, just like for `setattr`
             msg = f"Error attempting to over-write protected attribute {name or val.name} of Module {self}"
             raise RuntimeError(msg)
+        if self._elaborated is not None:  # Before naming `val`
+            raise RuntimeError(f"Cannot add {val} to {self} after elaboration.")
         if name is not None:  # One or the other set - great.
             val.name = name
 
@@ -173,7 +175,9 @@ class Module:
         """Set-attribute over-ride, organizing into type-based containers"""
 
         if not getattr(self, "_initialized", False) or (
-            key.startswith("_") and not _is_module_attr(val)
+            key.startswith("_")
+            and not _is_module_attr(val)
+            and key not in self.namespace
         ):
             # Bootstrapping phase, and internal (non-HDL) state. Pass along to "regular" setattr.
             return super().__setattr__(key, val)
@@ -189,6 +193,8 @@ class Module:
 
         # Check it's a valid attribute-type
         _assert_module_attr(self, val)
+        if self._elaborated is not None:  # Before (re-)naming `val`, which may be an attribute we already hold
+            raise RuntimeError(f"Cannot add {val} to {self} after elaboration.")
 
         # Checks out! Name `val` and add it to our type-based containers.
         val.name = key
